@@ -1,12 +1,13 @@
 import ZeepModel.Xsd.BindKw
 /-
-Helper lemmas about the keyword pass (`ZeepModel/Xsd/BindKw.lean`): membership in `available_kwargs` of a name a step is
-not about, the loop invariants of `Choice.parse_kwargs`, what an accepted call keeps, what a conforming call removes.
-The property theorems are in `ZeepProofs/C12Choice.lean`.
+Helper lemmas about the keyword pass and the rendering of a choice (`ZeepModel/Xsd/BindKw.lean`): what one branch (an
+element or a sequence of elements) takes and returns, membership in `available_kwargs` of a name a step is not about, the
+loop invariants of `Choice.parse_kwargs`, what an accepted call keeps, what a conforming call removes, which branch
+`_find_element_to_render` picks and what it emits.  The property theorems are in `ZeepProofs/C12Choice.lean`.
 -/
 namespace Zeep.BindKw
 
-/-! ### membership in `available_kwargs` of a name the step is not about -/
+/-! ### one element member -/
 
 theorem elemKw_sub (kw : Kw) (n : String) (avail : List String) (x : String) :
     x ∈ (elemKw kw n avail).2 → x ∈ avail := by
@@ -29,19 +30,186 @@ theorem elemKw_other (kw : Kw) (n : String) (avail : List String) (x : String) (
       · exact h
     · exact h
 
-theorem choiceStep_other (kw : Kw) (st : CState) (b x : String) (hx : x ≠ b) :
+theorem elemKw_in (kw : Kw) (b : String) (avail : List String) (v : Val) (hb : b ∈ avail) (hl : kw.lookup b = some v) :
+    elemKw kw b avail = ([(b, v)], avail.erase b) := by
+  unfold elemKw
+  rw [if_pos (List.contains_iff_mem.2 hb), hl]
+
+theorem elemKw_out (kw : Kw) (b : String) (avail : List String) (hb : b ∉ avail) :
+    elemKw kw b avail = ([], avail) := by
+  unfold elemKw
+  rw [if_neg (fun h => hb (List.contains_iff_mem.1 h))]
+
+theorem elemKw_nolookup (kw : Kw) (b : String) (avail : List String) (hl : kw.lookup b = none) :
+    elemKw kw b avail = ([], avail) := by
+  unfold elemKw
+  split
+  · rw [hl]
+  · rfl
+
+/-- the three shapes of what an element member returns -/
+theorem elemKw_cases (kw : Kw) (n : String) (avail : List String) :
+    (elemKw kw n avail = ([], avail)) ∨ (∃ v, n ∈ avail ∧ kw.lookup n = some v ∧ elemKw kw n avail = ([(n, v)], avail.erase n)) := by
+  by_cases hn : n ∈ avail
+  · cases hl : kw.lookup n with
+    | none => exact .inl (elemKw_nolookup kw n avail hl)
+    | some v => exact .inr ⟨v, hn, rfl, elemKw_in kw n avail v hn hl⟩
+  · exact .inl (elemKw_out kw n avail hn)
+
+theorem mem_upd (res sub : Kw) (k : String) (v : Val) :
+    (k, v) ∈ upd res sub ↔ ((k, v) ∈ res ∧ k ∉ keys sub) ∨ (k, v) ∈ sub := by
+  unfold upd
+  simp only [List.mem_append, List.mem_filter, Bool.not_eq_true', List.contains_eq_mem, decide_eq_false_iff_not]
+
+theorem keys_upd (res sub : Kw) (k : String) : k ∈ keys (upd res sub) → k ∈ keys res ∨ k ∈ keys sub := by
+  unfold upd keys
+  simp only [List.map_append, List.mem_append, List.mem_map]
+  rintro (⟨kv, h, rfl⟩ | h)
+  · exact .inl ⟨kv, (List.mem_filter.1 h).1, rfl⟩
+  · exact .inr h
+
+/-! ### one branch (an element, or a sequence of elements) -/
+
+theorem branchKw_cons_skip (kw : Kw) (n : String) (ns : Branch) (res : Kw) (avail : List String)
+    (h : elemKw kw n avail = ([], avail)) : branchKw kw (n :: ns) (res, avail) = branchKw kw ns (res, avail) := by
+  simp only [branchKw, h, List.isEmpty_nil, if_true]
+
+theorem branchKw_cons_take (kw : Kw) (n : String) (ns : Branch) (res : Kw) (avail : List String) (v : Val)
+    (h : elemKw kw n avail = ([(n, v)], avail.erase n)) :
+    branchKw kw (n :: ns) (res, avail) = branchKw kw ns (upd res [(n, v)], avail.erase n) := by
+  simp only [branchKw, h, List.isEmpty_cons, Bool.false_eq_true, if_false]
+
+theorem branchKw_sub (kw : Kw) (b : Branch) (res : Kw) (avail : List String) (x : String) :
+    x ∈ (branchKw kw b (res, avail)).2 → x ∈ avail := by
+  induction b generalizing res avail with
+  | nil => exact id
+  | cons n ns ih =>
+    rcases elemKw_cases kw n avail with h | ⟨v, _, _, h⟩
+    · rw [branchKw_cons_skip kw n ns res avail h]; exact ih res avail
+    · rw [branchKw_cons_take kw n ns res avail v h]
+      intro hx; exact List.mem_of_mem_erase (ih _ _ hx)
+
+theorem branchKw_other (kw : Kw) (b : Branch) (res : Kw) (avail : List String) (x : String) (hx : x ∉ b) :
+    x ∈ (branchKw kw b (res, avail)).2 ↔ x ∈ avail := by
+  induction b generalizing res avail with
+  | nil => rfl
+  | cons n ns ih =>
+    have hn : x ≠ n := fun e => hx (e ▸ List.mem_cons_self)
+    have hns : x ∉ ns := fun h => hx (List.mem_cons_of_mem _ h)
+    rcases elemKw_cases kw n avail with h | ⟨v, _, _, h⟩
+    · rw [branchKw_cons_skip kw n ns res avail h]; exact ih res avail hns
+    · rw [branchKw_cons_take kw n ns res avail v h, ih _ _ hns]
+      exact List.mem_erase_of_ne hn
+
+/-- what is in the sub-result: an entry of the accumulator, or the caller's value for a member that was available -/
+theorem branchKw_entries (kw : Kw) (b : Branch) (res : Kw) (avail : List String) (k : String) (v : Val) :
+    (k, v) ∈ (branchKw kw b (res, avail)).1 → (k, v) ∈ res ∨ (k ∈ b ∧ k ∈ avail ∧ kw.lookup k = some v) := by
+  induction b generalizing res avail with
+  | nil => intro h; exact .inl h
+  | cons n ns ih =>
+    rcases elemKw_cases kw n avail with h | ⟨vn, hn, hl, h⟩
+    · rw [branchKw_cons_skip kw n ns res avail h]
+      intro hm
+      rcases ih res avail hm with h' | ⟨h1, h2, h3⟩
+      · exact .inl h'
+      · exact .inr ⟨List.mem_cons_of_mem _ h1, h2, h3⟩
+    · rw [branchKw_cons_take kw n ns res avail vn h]
+      intro hm
+      rcases ih _ _ hm with h' | ⟨h1, h2, h3⟩
+      · rcases (mem_upd _ _ _ _).1 h' with ⟨h'', _⟩ | h''
+        · exact .inl h''
+        · simp only [List.mem_singleton, Prod.mk.injEq] at h''
+          obtain ⟨rfl, rfl⟩ := h''
+          exact .inr ⟨List.mem_cons_self, hn, hl⟩
+      · exact .inr ⟨List.mem_cons_of_mem _ h1, List.mem_of_mem_erase h2, h3⟩
+
+/-- an entry carrying the caller's value survives, and what a branch takes out of the available keywords is in its sub-result -/
+theorem branchKw_kept (kw : Kw) (b : Branch) (res : Kw) (avail : List String) (k : String) (v : Val)
+    (hl : kw.lookup k = some v)
+    (h : (k, v) ∈ res ∨ (k ∈ avail ∧ k ∉ (branchKw kw b (res, avail)).2)) :
+    (k, v) ∈ (branchKw kw b (res, avail)).1 := by
+  induction b generalizing res avail with
+  | nil =>
+    rcases h with h | ⟨h1, h2⟩
+    · exact h
+    · exact absurd h1 h2
+  | cons n ns ih =>
+    rcases elemKw_cases kw n avail with he | ⟨vn, hn, hln, he⟩
+    · rw [branchKw_cons_skip kw n ns res avail he] at h ⊢
+      exact ih res avail h
+    · rw [branchKw_cons_take kw n ns res avail vn he] at h ⊢
+      apply ih
+      by_cases hkn : k = n
+      · subst hkn; rw [hl] at hln; cases hln
+        exact .inl ((mem_upd _ _ _ _).2 (.inr (by simp)))
+      · rcases h with h | ⟨h1, h2⟩
+        · exact .inl ((mem_upd _ _ _ _).2 (.inl ⟨h, by simp [keys, hkn]⟩))
+        · exact .inr ⟨(List.mem_erase_of_ne hkn).2 h1, h2⟩
+
+/-- a member that is available and was passed is in the sub-result with the caller's value -/
+theorem branchKw_has (kw : Kw) (b : Branch) (res : Kw) (avail : List String) (x : String) (v : Val)
+    (hx : x ∈ b) (ha : x ∈ avail) (hl : kw.lookup x = some v) : (x, v) ∈ (branchKw kw b (res, avail)).1 := by
+  induction b generalizing res avail with
+  | nil => exact absurd hx (by simp)
+  | cons n ns ih =>
+    by_cases hxn : x = n
+    · subst hxn
+      rw [branchKw_cons_take kw x ns res avail v (elemKw_in kw x avail v ha hl)]
+      exact branchKw_kept kw ns _ _ x v hl (.inl ((mem_upd _ _ _ _).2 (.inr (by simp))))
+    · have hxs : x ∈ ns := by
+        rcases List.mem_cons.1 hx with h | h
+        · exact absurd h hxn
+        · exact h
+      rcases elemKw_cases kw n avail with he | ⟨vn, _, _, he⟩
+      · rw [branchKw_cons_skip kw n ns res avail he]; exact ih res avail hxs ha
+      · rw [branchKw_cons_take kw n ns res avail vn he]
+        exact ih _ _ hxs ((List.mem_erase_of_ne hxn).2 ha)
+
+theorem branchKw_keys (kw : Kw) (b : Branch) (avail : List String) (k : String) :
+    k ∈ keys (branchKw kw b ([], avail)).1 → k ∈ b := by
+  intro hk
+  obtain ⟨⟨k', v⟩, hm, rfl⟩ := List.mem_map.1 hk
+  rcases branchKw_entries kw b [] avail k' v hm with h | ⟨h, _, _⟩
+  · exact absurd h (by simp)
+  · exact h
+
+/-- the branch carries a value the caller gave: some available member of it was passed something that counts -/
+def BranchValued (kw : Kw) (b : Branch) (avail : List String) : Prop :=
+  ∃ x v, x ∈ b ∧ x ∈ avail ∧ kw.lookup x = some v ∧ v.has = true
+
+theorem branchKw_any_of_valued (kw : Kw) (b : Branch) (avail : List String) (h : BranchValued kw b avail) :
+    (branchKw kw b ([], avail)).1.isEmpty = false ∧ ((branchKw kw b ([], avail)).1.any fun kv => kv.2.has) = true := by
+  obtain ⟨x, v, hx, ha, hl, hv⟩ := h
+  have hm := branchKw_has kw b [] avail x v hx ha hl
+  constructor
+  · cases hh : (branchKw kw b ([], avail)).1 with
+    | nil => rw [hh] at hm; exact absurd hm (by simp)
+    | cons _ _ => rfl
+  · exact List.any_eq_true.2 ⟨(x, v), hm, hv⟩
+
+theorem branchKw_valued_of_any (kw : Kw) (b : Branch) (avail : List String)
+    (h : ((branchKw kw b ([], avail)).1.any fun kv => kv.2.has) = true) : BranchValued kw b avail := by
+  obtain ⟨⟨k, v⟩, hm, hv⟩ := List.any_eq_true.1 h
+  rcases branchKw_entries kw b [] avail k v hm with h' | ⟨h1, h2, h3⟩
+  · exact absurd h' (by simp)
+  · exact ⟨k, v, h1, h2, h3, hv⟩
+
+
+/-! ### the branch loop of `Choice.parse_kwargs` -/
+
+theorem choiceStep_other (kw : Kw) (st : CState) (b : Branch) (x : String) (hx : x ∉ b) :
     x ∈ (choiceStep kw st b).avail ↔ x ∈ st.avail := by
   unfold choiceStep
   simp only
   split
   · rfl
   · split
-    · simp only [List.mem_filter, List.contains_iff_mem, elemKw_other kw b st.avail x hx, and_self]
+    · simp only [List.mem_filter, List.contains_iff_mem, branchKw_other kw b [] st.avail x hx, and_self]
     · split
-      · simp only [List.mem_filter, List.contains_iff_mem, elemKw_other kw b st.avail x hx, and_self]
+      · simp only [List.mem_filter, List.contains_iff_mem, branchKw_other kw b [] st.avail x hx, and_self]
       · rfl
 
-theorem choiceStep_sub (kw : Kw) (st : CState) (b x : String) :
+theorem choiceStep_sub (kw : Kw) (st : CState) (b : Branch) (x : String) :
     x ∈ (choiceStep kw st b).avail → x ∈ st.avail := by
   unfold choiceStep
   simp only
@@ -53,7 +221,7 @@ theorem choiceStep_sub (kw : Kw) (st : CState) (b x : String) :
       · intro h; exact (List.mem_filter.1 h).1
       · exact id
 
-theorem choiceStep_found_mono (kw : Kw) (st : CState) (b : String) (h : st.found = true) :
+theorem choiceStep_found_mono (kw : Kw) (st : CState) (b : Branch) (h : st.found = true) :
     (choiceStep kw st b).found = true := by
   unfold choiceStep
   simp only
@@ -63,67 +231,58 @@ theorem choiceStep_found_mono (kw : Kw) (st : CState) (b : String) (h : st.found
     · exact h
     · split <;> simp_all
 
-theorem elemKw_in (kw : Kw) (b : String) (avail : List String) (v : Val) (hb : b ∈ avail) (hl : kw.lookup b = some v) :
-    elemKw kw b avail = ([(b, v)], avail.erase b) := by
-  unfold elemKw
-  rw [if_pos (List.contains_iff_mem.2 hb), hl]
-
-theorem elemKw_out (kw : Kw) (b : String) (avail : List String) (hb : b ∉ avail) :
-    elemKw kw b avail = ([], avail) := by
-  unfold elemKw
-  rw [if_neg (fun h => hb (List.contains_iff_mem.1 h))]
-
-/-- a branch that carries a value while another branch was already chosen changes nothing: its key stays available -/
-theorem choiceStep_valued_found (kw : Kw) (st : CState) (b : String) (v : Val)
-    (hl : kw.lookup b = some v) (hv : v.has = true) (hf : st.found = true) :
+/-- a branch that carries a value while another branch was already chosen changes nothing: its keys stay available -/
+theorem choiceStep_valued_found (kw : Kw) (st : CState) (b : Branch) (hv : BranchValued kw b st.avail) (hf : st.found = true) :
     choiceStep kw st b = st := by
+  obtain ⟨h1, h2⟩ := branchKw_any_of_valued kw b st.avail hv
   unfold choiceStep
-  by_cases hb : b ∈ st.avail
-  · simp only [elemKw_in kw b st.avail v hb hl]
-    simp [hv, hf]
-  · simp only [elemKw_out kw b st.avail hb]
-    simp
+  simp [h1, h2, hf]
 
-/-- after a valued, still available branch has been looked at, some branch is chosen -/
-theorem choiceStep_valued_sets_found (kw : Kw) (st : CState) (b : String) (v : Val)
-    (hl : kw.lookup b = some v) (hv : v.has = true) (hb : b ∈ st.avail) :
+/-- after a branch that carries a value has been looked at, some branch is chosen -/
+theorem choiceStep_valued_sets_found (kw : Kw) (st : CState) (b : Branch) (hv : BranchValued kw b st.avail) :
     (choiceStep kw st b).found = true := by
+  obtain ⟨h1, h2⟩ := branchKw_any_of_valued kw b st.avail hv
   unfold choiceStep
-  simp only [elemKw_in kw b st.avail v hb hl]
-  by_cases hf : st.found = true <;> simp [hv, hf]
+  by_cases hf : st.found = true <;> simp [h1, h2, hf]
 
-theorem fold_other (kw : Kw) (bs : List String) (st : CState) (x : String) (hx : x ∉ bs) :
+theorem fold_other (kw : Kw) (bs : List Branch) (st : CState) (x : String) (hx : x ∉ bs.flatten) :
     x ∈ (bs.foldl (choiceStep kw) st).avail ↔ x ∈ st.avail := by
   induction bs generalizing st with
   | nil => rfl
   | cons b bs ih =>
+    simp only [List.flatten_cons, List.mem_append, not_or] at hx
     simp only [List.foldl_cons]
-    rw [ih _ (fun h => hx (List.mem_cons_of_mem _ h))]
-    exact choiceStep_other kw st b x (fun h => hx (h ▸ List.mem_cons_self))
+    rw [ih _ hx.2]
+    exact choiceStep_other kw st b x hx.1
 
-theorem fold_found_mono (kw : Kw) (bs : List String) (st : CState) (h : st.found = true) :
+theorem fold_sub (kw : Kw) (bs : List Branch) (st : CState) (x : String) :
+    x ∈ (bs.foldl (choiceStep kw) st).avail → x ∈ st.avail := by
+  induction bs generalizing st with
+  | nil => exact id
+  | cons b bs ih => intro h; exact choiceStep_sub kw st b x (ih _ h)
+
+theorem fold_found_mono (kw : Kw) (bs : List Branch) (st : CState) (h : st.found = true) :
     (bs.foldl (choiceStep kw) st).found = true := by
   induction bs generalizing st with
   | nil => exact h
   | cons b bs ih => exact ih _ (choiceStep_found_mono kw st b h)
 
-/-- Lemma A: once a branch is chosen, a further valued branch keeps its key available to the end of the loop -/
-theorem fold_keeps_valued (kw : Kw) (bs : List String) (st : CState) (x : String) (v : Val)
+/-- Lemma A: once a branch is chosen, a valued key of a further branch stays available to the end of the loop -/
+theorem fold_keeps_valued (kw : Kw) (bs : List Branch) (st : CState) (x : String) (v : Val)
     (hl : kw.lookup x = some v) (hv : v.has = true) (hf : st.found = true) (hx : x ∈ st.avail) :
     x ∈ (bs.foldl (choiceStep kw) st).avail := by
   induction bs generalizing st with
   | nil => exact hx
   | cons b bs ih =>
     simp only [List.foldl_cons]
-    by_cases hb : b = x
-    · subst hb
-      rw [choiceStep_valued_found kw st b v hl hv hf]
+    by_cases hb : x ∈ b
+    · rw [choiceStep_valued_found kw st b ⟨x, v, hb, hx, hl, hv⟩ hf]
       exact ih st hf hx
-    · exact ih _ (choiceStep_found_mono kw st b hf) ((choiceStep_other kw st b x (fun h => hb h.symm)).2 hx)
+    · exact ih _ (choiceStep_found_mono kw st b hf) ((choiceStep_other kw st b x hb).2 hx)
 
-/-- Lemma B: of two distinct valued branches whose keys are available, one is still available after the loop -/
-theorem fold_two_valued (kw : Kw) (bs : List String) (st : CState) (x y : String) (vx vy : Val)
-    (hxy : x ≠ y) (hxm : x ∈ bs) (hym : y ∈ bs)
+/-- Lemma B: of two valued keys that no branch holds together, one is still available after the loop -/
+theorem fold_two_valued (kw : Kw) (bs : List Branch) (st : CState) (x y : String) (vx vy : Val)
+    (hapart : ∀ b, b ∈ bs → ¬ (x ∈ b ∧ y ∈ b)) (hxm : x ∈ bs.flatten) (hym : y ∈ bs.flatten)
     (hlx : kw.lookup x = some vx) (hvx : vx.has = true) (hly : kw.lookup y = some vy) (hvy : vy.has = true)
     (hx : x ∈ st.avail) (hy : y ∈ st.avail) :
     x ∈ (bs.foldl (choiceStep kw) st).avail ∨ y ∈ (bs.foldl (choiceStep kw) st).avail := by
@@ -131,28 +290,30 @@ theorem fold_two_valued (kw : Kw) (bs : List String) (st : CState) (x y : String
   | nil => exact absurd hxm (by simp)
   | cons b bs ih =>
     simp only [List.foldl_cons]
-    by_cases hbx : b = x
-    · subst hbx
+    have hap := hapart b List.mem_cons_self
+    by_cases hbx : x ∈ b
+    · have hby : y ∉ b := fun h => hap ⟨hbx, h⟩
       right
-      exact fold_keeps_valued kw bs _ y vy hly hvy (choiceStep_valued_sets_found kw st b vx hlx hvx hx)
-        ((choiceStep_other kw st b y (fun h => hxy h.symm)).2 hy)
-    · by_cases hby : b = y
-      · subst hby
-        left
-        exact fold_keeps_valued kw bs _ x vx hlx hvx (choiceStep_valued_sets_found kw st b vy hly hvy hy)
-          ((choiceStep_other kw st b x hxy).2 hx)
-      · have hxm' : x ∈ bs := by
-          rcases List.mem_cons.1 hxm with h | h
-          · exact absurd h.symm hbx
+      exact fold_keeps_valued kw bs _ y vy hly hvy (choiceStep_valued_sets_found kw st b ⟨x, vx, hbx, hx, hlx, hvx⟩)
+        ((choiceStep_other kw st b y hby).2 hy)
+    · by_cases hby : y ∈ b
+      · left
+        exact fold_keeps_valued kw bs _ x vx hlx hvx (choiceStep_valued_sets_found kw st b ⟨y, vy, hby, hy, hly, hvy⟩)
+          ((choiceStep_other kw st b x hbx).2 hx)
+      · have hxm' : x ∈ bs.flatten := by
+          simp only [List.flatten_cons, List.mem_append] at hxm
+          rcases hxm with h | h
+          · exact absurd h hbx
           · exact h
-        have hym' : y ∈ bs := by
-          rcases List.mem_cons.1 hym with h | h
-          · exact absurd h.symm hby
+        have hym' : y ∈ bs.flatten := by
+          simp only [List.flatten_cons, List.mem_append] at hym
+          rcases hym with h | h
+          · exact absurd h hby
           · exact h
-        exact ih _ hxm' hym' ((choiceStep_other kw st b x (fun h => hbx h.symm)).2 hx)
-          ((choiceStep_other kw st b y (fun h => hby h.symm)).2 hy)
+        exact ih _ (fun b' hb' => hapart b' (List.mem_cons_of_mem _ hb')) hxm' hym'
+          ((choiceStep_other kw st b x hbx).2 hx) ((choiceStep_other kw st b y hby).2 hy)
 
-theorem choiceKw_avail (kw : Kw) (bs : List String) (avail : List String) :
+theorem choiceKw_avail (kw : Kw) (bs : List Branch) (avail : List String) :
     (choiceKw kw bs avail).2 = (bs.foldl (choiceStep kw) ⟨avail, [], false⟩).avail := by
   unfold choiceKw
   simp only
@@ -169,6 +330,12 @@ theorem itemKw_other (kw : Kw) (avail : List String) (it : Item) (x : String) (h
     simp only [itemKw, choiceKw_avail]
     exact fold_other kw bs _ x hx
 
+theorem itemKw_sub (kw : Kw) (avail : List String) (it : Item) (x : String) :
+    x ∈ (itemKw kw avail it).2 → x ∈ avail := by
+  cases it with
+  | elem n => exact elemKw_sub kw n avail x
+  | choice bs => simp only [itemKw, choiceKw_avail]; exact fold_sub kw bs _ x
+
 theorem seqKw_other (kw : Kw) (items : List Item) (res : Kw) (avail : List String) (x : String)
     (hx : x ∉ allNames items) :
     x ∈ (seqKw kw items (res, avail)).2 ↔ x ∈ avail := by
@@ -180,6 +347,24 @@ theorem seqKw_other (kw : Kw) (items : List Item) (res : Kw) (avail : List Strin
     rw [ih _ _ (by simpa [allNames] using hx.2)]
     exact itemKw_other kw avail it x hx.1
 
+theorem seqKw_sub (kw : Kw) (items : List Item) (res : Kw) (avail : List String) (x : String) :
+    x ∈ (seqKw kw items (res, avail)).2 → x ∈ avail := by
+  induction items generalizing res avail with
+  | nil => exact id
+  | cons it rest ih => intro h; simp only [seqKw] at h; exact itemKw_sub kw avail it x (ih _ _ h)
+
+theorem attrKw_cons_in (kw : Kw) (a : String) (rest : List String) (res : Kw) (avail : List String) (va : Val)
+    (hc : avail.contains a = true) (hla : kw.lookup a = some va) :
+    attrKw kw (a :: rest) (res, avail) = attrKw kw rest (upd res [(a, va)], avail.erase a) := by
+  simp only [attrKw, hc, if_true, hla]
+
+theorem attrKw_cons_out (kw : Kw) (a : String) (rest : List String) (res : Kw) (avail : List String)
+    (hc : avail.contains a = false ∨ kw.lookup a = none) :
+    attrKw kw (a :: rest) (res, avail) = attrKw kw rest (res, avail) := by
+  rcases hc with hc | hc
+  · simp only [attrKw, hc]; rfl
+  · simp only [attrKw, hc]; split <;> rfl
+
 theorem attrKw_other (kw : Kw) (attrs : List String) (res : Kw) (avail : List String) (x : String)
     (hx : x ∉ attrs) :
     x ∈ (attrKw kw attrs (res, avail)).2 ↔ x ∈ avail := by
@@ -188,12 +373,12 @@ theorem attrKw_other (kw : Kw) (attrs : List String) (res : Kw) (avail : List St
   | cons a rest ih =>
     have ha : x ≠ a := fun h => hx (h ▸ List.mem_cons_self)
     have hr : x ∉ rest := fun h => hx (List.mem_cons_of_mem _ h)
-    simp only [attrKw]
-    split
-    · split
-      · rw [ih _ _ hr]; exact List.mem_erase_of_ne ha
-      · exact ih _ _ hr
-    · exact ih _ _ hr
+    by_cases hc : avail.contains a = true
+    · cases hla : kw.lookup a with
+      | none => rw [attrKw_cons_out kw a rest res avail (.inr hla)]; exact ih _ _ hr
+      | some va => rw [attrKw_cons_in kw a rest res avail va hc hla, ih _ _ hr]; exact List.mem_erase_of_ne ha
+    · have hc' : avail.contains a = false := by simpa using hc
+      rw [attrKw_cons_out kw a rest res avail (.inl hc')]; exact ih _ _ hr
 
 theorem processKw_error_of_left (items : List Item) (attrs : List String) (kw : Kw) (x : String)
     (h : x ∈ (attrKw kw attrs (seqKw kw items ([], keys kw))).2) :
@@ -204,12 +389,11 @@ theorem processKw_error_of_left (items : List Item) (attrs : List String) (kw : 
   · rename_i heq; rw [heq] at h; exact absurd h (by simp)
   · rename_i k _ _; exact ⟨k, rfl⟩
 
-
-/-- seqKw leaves one of two valued branches of one choice among the available keywords -/
-theorem seqKw_two_valued (kw : Kw) (items : List Item) (res : Kw) (avail : List String) (bs : List String)
+/-- seqKw leaves one of two valued keys of different branches of one choice among the available keywords -/
+theorem seqKw_two_valued (kw : Kw) (items : List Item) (res : Kw) (avail : List String) (bs : List Branch)
     (x y : String) (vx vy : Val)
     (hnd : (allNames items).Nodup) (hc : Item.choice bs ∈ items)
-    (hxy : x ≠ y) (hxm : x ∈ bs) (hym : y ∈ bs)
+    (hapart : ∀ b, b ∈ bs → ¬ (x ∈ b ∧ y ∈ b)) (hxm : x ∈ bs.flatten) (hym : y ∈ bs.flatten)
     (hlx : kw.lookup x = some vx) (hvx : vx.has = true) (hly : kw.lookup y = some vy) (hvy : vy.has = true)
     (hx : x ∈ avail) (hy : y ∈ avail) :
     x ∈ (seqKw kw items (res, avail)).2 ∨ y ∈ (seqKw kw items (res, avail)).2 := by
@@ -221,32 +405,23 @@ theorem seqKw_two_valued (kw : Kw) (items : List Item) (res : Kw) (avail : List 
     simp only [seqKw]
     rcases List.mem_cons.1 hc with h | h
     · subst h
-      -- this item is the choice: one of the two survives it, and nothing later carries its name
-      have hB := fold_two_valued kw bs ⟨avail, [], false⟩ x y vx vy hxy hxm hym hlx hvx hly hvy hx hy
+      have hB := fold_two_valued kw bs ⟨avail, [], false⟩ x y vx vy hapart hxm hym hlx hvx hly hvy hx hy
       rw [← choiceKw_avail] at hB
-      have hnot : ∀ z, z ∈ bs → z ∉ allNames rest := fun z hz hz' => hnd'.2.2 z hz z hz' rfl
+      have hnot : ∀ z, z ∈ bs.flatten → z ∉ allNames rest := fun z hz hz' => hnd'.2.2 z hz z hz' rfl
       rcases hB with hB | hB
       · left; exact (seqKw_other kw rest _ _ x (hnot x hxm)).2 hB
       · right; exact (seqKw_other kw rest _ _ y (hnot y hym)).2 hB
-    · -- the choice comes later: this item is about other names
-      have hin : ∀ z, z ∈ bs → z ∈ allNames rest := fun z hz =>
+    · have hin : ∀ z, z ∈ bs.flatten → z ∈ allNames rest := fun z hz =>
         List.mem_flatMap.2 ⟨_, h, hz⟩
-      have hnot : ∀ z, z ∈ bs → z ∉ it.names := fun z hz hz' => hnd'.2.2 z hz' z (hin z hz) rfl
+      have hnot : ∀ z, z ∈ bs.flatten → z ∉ it.names := fun z hz hz' => hnd'.2.2 z hz' z (hin z hz) rfl
       exact ih _ _ hnd'.2.1 h ((itemKw_other kw avail it x (hnot x hxm)).2 hx)
         ((itemKw_other kw avail it y (hnot y hym)).2 hy)
 
 
-theorem mem_upd (res sub : Kw) (k : String) (v : Val) :
-    (k, v) ∈ upd res sub ↔ ((k, v) ∈ res ∧ k ∉ keys sub) ∨ (k, v) ∈ sub := by
-  unfold upd
-  simp only [List.mem_append, List.mem_filter, Bool.not_eq_true', List.contains_eq_mem, decide_eq_false_iff_not]
+theorem mem_keys_of_lookup (kw : Kw) (z : String) (v : Val) (h : kw.lookup z = some v) : z ∈ keys kw := by
+  obtain ⟨l₁, l₂, heq, _⟩ := List.lookup_eq_some_iff.1 h
+  exact List.mem_map.2 ⟨(z, v), by rw [heq]; simp, rfl⟩
 
-theorem keys_upd (res sub : Kw) (k : String) : k ∈ keys (upd res sub) → k ∈ keys res ∨ k ∈ keys sub := by
-  unfold upd keys
-  simp only [List.map_append, List.mem_append, List.mem_map]
-  rintro (⟨kv, h, rfl⟩ | h)
-  · exact .inl ⟨kv, (List.mem_filter.1 h).1, rfl⟩
-  · exact .inr h
 
 theorem mem_setDefaults (res : Kw) (ns : List String) (kv : String × Val) (h : kv ∈ res) : kv ∈ setDefaults res ns := by
   induction ns generalizing res with
@@ -274,64 +449,66 @@ theorem keys_setDefaults (res : Kw) (ns : List String) (k : String) :
         · exact .inr (h ▸ List.mem_cons_self)
     · exact .inr (List.mem_cons_of_mem _ h)
 
+theorem branchKw_removed_lookup (kw : Kw) (b : Branch) (res : Kw) (avail : List String) (k : String)
+    (hk : k ∈ avail) (hgone : k ∉ (branchKw kw b (res, avail)).2) : ∃ v, kw.lookup k = some v := by
+  induction b generalizing res avail with
+  | nil => exact absurd hk hgone
+  | cons n ns ih =>
+    rcases elemKw_cases kw n avail with he | ⟨vn, _, hln, he⟩
+    · rw [branchKw_cons_skip kw n ns res avail he] at hgone; exact ih res avail hk hgone
+    · rw [branchKw_cons_take kw n ns res avail vn he] at hgone
+      by_cases hkn : k = n
+      · subst hkn; exact ⟨vn, hln⟩
+      · exact ih _ _ ((List.mem_erase_of_ne hkn).2 hk) hgone
+
 /-- the loop invariant of `Choice.parse_kwargs`: a key taken out of `available_kwargs` is in the result with the
 caller's value, and if that value counts as given a branch has been chosen -/
 def CInv (kw : Kw) (a0 : List String) (st : CState) : Prop :=
   ∀ k, k ∈ a0 → k ∉ st.avail → ∃ v, kw.lookup k = some v ∧ (k, v) ∈ st.result ∧ (v.has = true → st.found = true)
 
-theorem choiceStep_inv (kw : Kw) (a0 : List String) (st : CState) (b : String) (h : CInv kw a0 st) :
+theorem choiceStep_inv (kw : Kw) (a0 : List String) (st : CState) (b : Branch) (h : CInv kw a0 st) :
     CInv kw a0 (choiceStep kw st b) := by
+  have key : ∀ (f : Bool), (st.found = true → f = true) →
+      (∀ k v, (k, v) ∈ (branchKw kw b ([], st.avail)).1 → v.has = true → f = true) →
+      CInv kw a0 ⟨st.avail.filter (branchKw kw b ([], st.avail)).2.contains, upd st.result (branchKw kw b ([], st.avail)).1, f⟩ := by
+    intro f hf2 hf1 k hk0 hk
+    by_cases hka : k ∈ st.avail
+    · -- removed by this branch
+      have hgone : k ∉ (branchKw kw b ([], st.avail)).2 := fun hm =>
+        hk (List.mem_filter.2 ⟨hka, List.contains_iff_mem.2 hm⟩)
+      obtain ⟨v, hl⟩ := branchKw_removed_lookup kw b [] st.avail k hka hgone
+      have hm := branchKw_kept kw b [] st.avail k v hl (.inr ⟨hka, hgone⟩)
+      exact ⟨v, hl, (mem_upd _ _ _ _).2 (.inr hm), hf1 k v hm⟩
+    · obtain ⟨v', hl', hm, hf⟩ := h k hk0 hka
+      refine ⟨v', hl', (mem_upd _ _ _ _).2 (.inl ⟨hm, fun hks => ?_⟩), fun hv => hf2 (hf hv)⟩
+      obtain ⟨⟨k', w⟩, hmem, hkk⟩ := List.mem_map.1 hks
+      simp only at hkk; subst hkk
+      rcases branchKw_entries kw b [] st.avail k' w hmem with h' | ⟨_, h2, _⟩
+      · exact absurd h' (by simp)
+      · exact hka h2
   unfold choiceStep
-  by_cases hb : b ∈ st.avail
-  · cases hl : kw.lookup b with
-    | none =>
-      have : elemKw kw b st.avail = ([], st.avail) := by
-        unfold elemKw; rw [if_pos (List.contains_iff_mem.2 hb), hl]
-      simp only [this]
-      simpa using h
-    | some v =>
-      simp only [elemKw_in kw b st.avail v hb hl]
-      have key : ∀ (f : Bool), (v.has = true → f = true) → (st.found = true → f = true) →
-          CInv kw a0 ⟨st.avail.filter (st.avail.erase b).contains, upd st.result [(b, v)], f⟩ := by
-        intro f hf1 hf2 k hk0 hk
-        by_cases hka : k ∈ st.avail
-        · -- removed now: it is `b`
-          have : k = b := by
-            apply Classical.byContradiction
-            intro hne
-            exact hk (List.mem_filter.2 ⟨hka, List.contains_iff_mem.2 ((List.mem_erase_of_ne hne).2 hka)⟩)
-          subst this
-          exact ⟨v, hl, (mem_upd _ _ _ _).2 (.inr (by simp)), hf1⟩
-        · obtain ⟨v', hl', hm, hf⟩ := h k hk0 hka
-          have hne : k ≠ b := fun e => hka (e ▸ hb)
-          refine ⟨v', hl', (mem_upd _ _ _ _).2 (.inl ⟨hm, ?_⟩), fun hv => hf2 (hf hv)⟩
-          simp [keys, hne]
-      by_cases hv : v.has = true
-      · by_cases hf : st.found = true
-        · simp [hv, hf]; exact h
-        · have hf' : st.found = false := by simpa using hf
-          simpa [hv, hf'] using key true (fun _ => rfl) (fun _ => rfl)
-      · have hv' : v.has = false := by simpa using hv
-        simp [hv']
-        exact key st.found (fun e => absurd e hv) id
-  · simp only [elemKw_out kw b st.avail hb]
-    simpa using h
+  simp only
+  split
+  · exact h
+  · split
+    · rename_i hnv
+      have hnv' : ((branchKw kw b ([], st.avail)).1.any fun kv => kv.2.has) = false := by simpa using hnv
+      refine key st.found id (fun k v hm hv => ?_)
+      have : ((branchKw kw b ([], st.avail)).1.any fun kv => kv.2.has) = true := List.any_eq_true.2 ⟨(k, v), hm, hv⟩
+      rw [hnv'] at this; cases this
+    · split
+      · exact key true (fun _ => rfl) (fun _ _ _ _ => rfl)
+      · exact h
 
-theorem fold_inv (kw : Kw) (a0 : List String) (bs : List String) (st : CState) (h : CInv kw a0 st) :
+theorem fold_inv (kw : Kw) (a0 : List String) (bs : List Branch) (st : CState) (h : CInv kw a0 st) :
     CInv kw a0 (bs.foldl (choiceStep kw) st) := by
   induction bs generalizing st with
   | nil => exact h
   | cons b bs ih => exact ih _ (choiceStep_inv kw a0 st b h)
 
-theorem choiceStep_keys (kw : Kw) (st : CState) (b : String) (B : List String) (hb : b ∈ B)
+theorem choiceStep_keys (kw : Kw) (st : CState) (b : Branch) (B : List String) (hb : ∀ n, n ∈ b → n ∈ B)
     (h : ∀ k, k ∈ keys st.result → k ∈ B) : ∀ k, k ∈ keys (choiceStep kw st b).result → k ∈ B := by
   unfold choiceStep
-  have hsub : ∀ k, k ∈ keys (elemKw kw b st.avail).1 → k = b := by
-    intro k
-    unfold elemKw
-    split
-    · split <;> simp [keys]
-    · simp [keys]
   simp only
   split
   · exact h
@@ -339,21 +516,21 @@ theorem choiceStep_keys (kw : Kw) (st : CState) (b : String) (B : List String) (
     · intro k hk
       rcases keys_upd _ _ k hk with hk | hk
       · exact h k hk
-      · exact hsub k hk ▸ hb
+      · exact hb k (branchKw_keys kw b st.avail k hk)
     · split
       · intro k hk
         rcases keys_upd _ _ k hk with hk | hk
         · exact h k hk
-        · exact hsub k hk ▸ hb
+        · exact hb k (branchKw_keys kw b st.avail k hk)
       · exact h
 
-theorem fold_keys (kw : Kw) (bs B : List String) (st : CState) (hB : ∀ b, b ∈ bs → b ∈ B)
+theorem fold_keys (kw : Kw) (bs : List Branch) (B : List String) (st : CState) (hB : ∀ n, n ∈ bs.flatten → n ∈ B)
     (h : ∀ k, k ∈ keys st.result → k ∈ B) : ∀ k, k ∈ keys (bs.foldl (choiceStep kw) st).result → k ∈ B := by
   induction bs generalizing st with
   | nil => exact h
   | cons b bs ih =>
-    exact ih _ (fun x hx => hB x (List.mem_cons_of_mem _ hx))
-      (choiceStep_keys kw st b B (hB b List.mem_cons_self) h)
+    simp only [List.flatten_cons, List.mem_append] at hB
+    exact ih _ (fun n hn => hB n (.inr hn)) (choiceStep_keys kw st b B (fun n hn => hB n (.inl hn)) h)
 
 theorem itemKw_keys (kw : Kw) (avail : List String) (it : Item) :
     ∀ k, k ∈ keys (itemKw kw avail it).1 → k ∈ it.names := by
@@ -361,17 +538,14 @@ theorem itemKw_keys (kw : Kw) (avail : List String) (it : Item) :
   | elem n =>
     intro k
     simp only [itemKw, Item.names, List.mem_singleton]
-    unfold elemKw
-    split
-    · split <;> simp [keys]
-    · simp [keys]
+    rcases elemKw_cases kw n avail with h | ⟨v, _, _, h⟩ <;> rw [h] <;> simp [keys]
   | choice bs =>
     intro k
     simp only [itemKw, Item.names, choiceKw]
     split
     · intro hk
       rcases keys_setDefaults _ _ k hk with hk | hk
-      · exact fold_keys kw bs bs _ (fun _ h => h) (by simp [keys]) k hk
+      · exact fold_keys kw bs bs.flatten _ (fun _ h => h) (by simp [keys]) k hk
       · exact hk
     · simp [keys]
 
@@ -382,21 +556,15 @@ theorem itemKw_kept (kw : Kw) (avail : List String) (it : Item) (k : String) (v 
   cases it with
   | elem n =>
     simp only [itemKw] at hgone ⊢
-    by_cases hn : n ∈ avail
-    · cases hln : kw.lookup n with
-      | none =>
-        have : elemKw kw n avail = ([], avail) := by
-          unfold elemKw; rw [if_pos (List.contains_iff_mem.2 hn), hln]
-        rw [this] at hgone; exact absurd hk hgone
-      | some vn =>
-        rw [elemKw_in kw n avail vn hn hln] at hgone ⊢
-        have : k = n := by
-          apply Classical.byContradiction
-          intro hne; exact hgone ((List.mem_erase_of_ne hne).2 hk)
-        subst this
-        rw [hl] at hln; cases hln
-        simp
-    · rw [elemKw_out kw n avail hn] at hgone; exact absurd hk hgone
+    rcases elemKw_cases kw n avail with he | ⟨vn, _, hln, he⟩
+    · rw [he] at hgone; exact absurd hk hgone
+    · rw [he] at hgone ⊢
+      have : k = n := by
+        apply Classical.byContradiction
+        intro hne; exact hgone ((List.mem_erase_of_ne hne).2 hk)
+      subst this
+      rw [hl] at hln; cases hln
+      simp
   | choice bs =>
     simp only [itemKw] at hgone ⊢
     rw [choiceKw_avail] at hgone
@@ -421,7 +589,6 @@ theorem seqKw_kept (kw : Kw) (items : List Item) (res : Kw) (avail : List String
     simp only [allNames, List.flatMap_cons] at hnd hdis
     have hnd' := List.nodup_append.1 hnd
     simp only [seqKw] at h ⊢
-    -- the accumulated result after this member
     have hkeys : ∀ x, x ∈ keys (if (itemKw kw avail it).1.isEmpty then res else upd res (itemKw kw avail it).1) →
         x ∈ keys res ∨ x ∈ it.names := by
       intro x hx
@@ -455,18 +622,6 @@ theorem seqKw_kept (kw : Kw) (items : List Item) (res : Kw) (avail : List String
           | cons _ _ => rfl
         rw [hne]
         exact (mem_upd _ _ _ _).2 (.inr hm)
-
-theorem attrKw_cons_in (kw : Kw) (a : String) (rest : List String) (res : Kw) (avail : List String) (va : Val)
-    (hc : avail.contains a = true) (hla : kw.lookup a = some va) :
-    attrKw kw (a :: rest) (res, avail) = attrKw kw rest (upd res [(a, va)], avail.erase a) := by
-  simp only [attrKw, hc, if_true, hla]
-
-theorem attrKw_cons_out (kw : Kw) (a : String) (rest : List String) (res : Kw) (avail : List String)
-    (hc : avail.contains a = false ∨ kw.lookup a = none) :
-    attrKw kw (a :: rest) (res, avail) = attrKw kw rest (res, avail) := by
-  rcases hc with hc | hc
-  · simp only [attrKw, hc]; rfl
-  · simp only [attrKw, hc]; split <;> rfl
 
 theorem attrKw_kept (kw : Kw) (attrs : List String) (res : Kw) (avail : List String)
     (k : String) (v : Val) (hl : kw.lookup k = some v)
@@ -517,121 +672,126 @@ theorem lookup_of_mem_keys (kw : Kw) (k : String) (h : k ∈ keys kw) : ∃ v, k
         have : (k == k') = false := by simpa using hk
         rw [this]; exact hv
 
-/-- the state of the branch loop while a conforming call is processed -/
-structure FOk (kw : Kw) (B : List String) (st : CState) : Prop where
-  nodup : st.avail.Nodup
-  sub : ∀ x, x ∈ st.avail → x ∈ keys kw
-  chosen : st.found = true → ∃ y vy, y ∈ B ∧ kw.lookup y = some vy ∧ vy.has = true ∧ y ∉ st.avail
-
-theorem not_mem_filter_erase (l : List String) (b : String) (h : l.Nodup) : b ∉ l.filter (l.erase b).contains := by
-  intro hm
-  have := (List.mem_filter.1 hm).2
-  exact (List.Nodup.mem_erase_iff h).1 (List.contains_iff_mem.1 this) |>.1 rfl
-
-theorem choiceStep_take (kw : Kw) (st : CState) (b : String) (v : Val) (hb : b ∈ st.avail) (hl : kw.lookup b = some v)
-    (h : v.has = false ∨ st.found = false) :
-    choiceStep kw st b =
-      { avail := st.avail.filter (st.avail.erase b).contains, result := upd st.result [(b, v)], found := v.has || st.found } := by
-  unfold choiceStep
-  simp only [elemKw_in kw b st.avail v hb hl]
-  rcases h with h | h
-  · simp [h]
-  · cases hv : v.has <;> simp [hv, h]
-
-theorem choiceStep_ok (kw : Kw) (B : List String) (st : CState) (b : String) (hb : b ∈ B)
-    (hone : ∀ x y vx vy, x ∈ B → y ∈ B → kw.lookup x = some vx → vx.has = true →
-      kw.lookup y = some vy → vy.has = true → x = y)
-    (h : FOk kw B st) : FOk kw B (choiceStep kw st b) ∧ b ∉ (choiceStep kw st b).avail := by
-  by_cases hba : b ∈ st.avail
-  · obtain ⟨v, hl⟩ := lookup_of_mem_keys kw b (h.sub b hba)
-    have hout := not_mem_filter_erase st.avail b h.nodup
-    have hnd : (st.avail.filter (st.avail.erase b).contains).Nodup := List.Nodup.sublist List.filter_sublist h.nodup
-    have hsub : ∀ x, x ∈ st.avail.filter (st.avail.erase b).contains → x ∈ keys kw :=
-      fun x hx => h.sub x (List.mem_filter.1 hx).1
-    by_cases hv : v.has = true
-    · by_cases hf : st.found = true
-      · -- a second valued branch: excluded for a conforming call
-        obtain ⟨y, vy, hyB, hly, hvy, hyn⟩ := h.chosen hf
-        have : y = b := hone y b vy v hyB hb hly hvy hl hv
-        exact absurd hba (this ▸ hyn)
-      · have hf' : st.found = false := by simpa using hf
-        rw [choiceStep_take kw st b v hba hl (.inr hf')]
-        exact ⟨⟨hnd, hsub, fun _ => ⟨b, v, hb, hl, hv, hout⟩⟩, hout⟩
-    · have hv' : v.has = false := by simpa using hv
-      rw [choiceStep_take kw st b v hba hl (.inl hv')]
-      refine ⟨⟨hnd, hsub, fun hf => ?_⟩, hout⟩
-      have hf' : st.found = true := by simpa [hv'] using hf
-      obtain ⟨y, vy, hyB, hly, hvy, hyn⟩ := h.chosen hf'
-      exact ⟨y, vy, hyB, hly, hvy, fun hm => hyn (List.mem_filter.1 hm).1⟩
-  · have : choiceStep kw st b = st := by
-      unfold choiceStep
-      simp only [elemKw_out kw b st.avail hba]
-      simp
-    rw [this]
-    exact ⟨h, hba⟩
-
-theorem fold_sub (kw : Kw) (bs : List String) (st : CState) (x : String) :
-    x ∈ (bs.foldl (choiceStep kw) st).avail → x ∈ st.avail := by
-  induction bs generalizing st with
-  | nil => exact id
-  | cons b bs ih => intro h; exact choiceStep_sub kw st b x (ih _ h)
-
-theorem fold_ok (kw : Kw) (B bs : List String) (st : CState) (hB : ∀ b, b ∈ bs → b ∈ B)
-    (hone : ∀ x y vx vy, x ∈ B → y ∈ B → kw.lookup x = some vx → vx.has = true →
-      kw.lookup y = some vy → vy.has = true → x = y)
-    (h : FOk kw B st) :
-    FOk kw B (bs.foldl (choiceStep kw) st) ∧ ∀ k, k ∈ bs → k ∉ (bs.foldl (choiceStep kw) st).avail := by
-  induction bs generalizing st with
-  | nil => exact ⟨h, fun k hk => absurd hk (by simp)⟩
-  | cons b bs ih =>
-    obtain ⟨h1, h2⟩ := choiceStep_ok kw B st b (hB b List.mem_cons_self) hone h
-    obtain ⟨h3, h4⟩ := ih _ (fun x hx => hB x (List.mem_cons_of_mem _ hx)) h1
-    refine ⟨h3, fun k hk => ?_⟩
-    rcases List.mem_cons.1 hk with rfl | hk
-    · exact fun hm => h2 (fold_sub kw bs _ _ hm)
-    · exact h4 k hk
-
 /-- available keywords while a conforming call is processed: duplicate-free, all of them keys of the call -/
 structure AOk (kw : Kw) (avail : List String) : Prop where
   nodup : avail.Nodup
   sub : ∀ x, x ∈ avail → x ∈ keys kw
 
+theorem branchKw_ok (kw : Kw) (b : Branch) (res : Kw) (avail : List String) (h : AOk kw avail) :
+    AOk kw (branchKw kw b (res, avail)).2 ∧ ∀ n, n ∈ b → n ∉ (branchKw kw b (res, avail)).2 := by
+  induction b generalizing res avail with
+  | nil => exact ⟨h, fun n hn => absurd hn (by simp)⟩
+  | cons m ms ih =>
+    by_cases hm : m ∈ avail
+    · obtain ⟨v, hl⟩ := lookup_of_mem_keys kw m (h.sub m hm)
+      rw [branchKw_cons_take kw m ms res avail v (elemKw_in kw m avail v hm hl)]
+      have h' : AOk kw (avail.erase m) := ⟨List.Nodup.erase _ h.nodup, fun x hx => h.sub x (List.mem_of_mem_erase hx)⟩
+      obtain ⟨h1, h2⟩ := ih (upd res [(m, v)]) (avail.erase m) h'
+      refine ⟨h1, fun n hn => ?_⟩
+      rcases List.mem_cons.1 hn with rfl | hn
+      · exact fun hmem => ((List.Nodup.mem_erase_iff h.nodup).1 (branchKw_sub kw ms _ _ _ hmem)).1 rfl
+      · exact h2 n hn
+    · rw [branchKw_cons_skip kw m ms res avail (elemKw_out kw m avail hm)]
+      obtain ⟨h1, h2⟩ := ih res avail h
+      refine ⟨h1, fun n hn => ?_⟩
+      rcases List.mem_cons.1 hn with rfl | hn
+      · exact fun hmem => hm (branchKw_sub kw ms _ _ _ hmem)
+      · exact h2 n hn
+
+/-- the caller passed something that counts for a member of the branch -/
+def ValuedIn (kw : Kw) (b : Branch) : Prop := ∃ x v, x ∈ b ∧ kw.lookup x = some v ∧ v.has = true
+
+/-- the state of the branch loop while a conforming call is processed; `done` are the branches looked at so far -/
+structure FOk (kw : Kw) (done : List Branch) (st : CState) : Prop where
+  aok : AOk kw st.avail
+  chosen : st.found = true → ∃ b0, b0 ∈ done ∧ ValuedIn kw b0
+
+theorem choiceStep_ok (kw : Kw) (done : List Branch) (st : CState) (b : Branch)
+    (hb : ValuedIn kw b → ∀ b0, b0 ∈ done → ¬ ValuedIn kw b0) (h : FOk kw done st) :
+    FOk kw (done ++ [b]) (choiceStep kw st b) ∧ ∀ n, n ∈ b → n ∉ (choiceStep kw st b).avail := by
+  obtain ⟨hr1, hr2⟩ := branchKw_ok kw b [] st.avail h.aok
+  have hcommit : ∀ f : Bool, (f = true → ∃ b0, b0 ∈ done ++ [b] ∧ ValuedIn kw b0) →
+      FOk kw (done ++ [b]) ⟨st.avail.filter (branchKw kw b ([], st.avail)).2.contains, upd st.result (branchKw kw b ([], st.avail)).1, f⟩ ∧
+      ∀ n, n ∈ b → n ∉ st.avail.filter (branchKw kw b ([], st.avail)).2.contains := by
+    intro f hf
+    refine ⟨⟨⟨List.Nodup.sublist List.filter_sublist h.aok.nodup, fun x hx => h.aok.sub x (List.mem_filter.1 hx).1⟩, hf⟩, ?_⟩
+    intro n hn hm
+    exact hr2 n hn (List.contains_iff_mem.1 (List.mem_filter.1 hm).2)
+  have hchosen' : st.found = true → ∃ b0, b0 ∈ done ++ [b] ∧ ValuedIn kw b0 := fun hf => by
+    obtain ⟨b0, hb0, hv0⟩ := h.chosen hf
+    exact ⟨b0, List.mem_append_left _ hb0, hv0⟩
+  by_cases hval : BranchValued kw b st.avail
+  · have hval' := hval
+    obtain ⟨x, v, hx, _, hl, hv⟩ := hval'
+    have hvb : ValuedIn kw b := ⟨x, v, hx, hl, hv⟩
+    obtain ⟨h1, h2⟩ := branchKw_any_of_valued kw b st.avail hval
+    by_cases hf : st.found = true
+    · obtain ⟨b0, hb0, hv0⟩ := h.chosen hf
+      exact absurd hv0 (hb hvb b0 hb0)
+    · have hf' : st.found = false := by simpa using hf
+      have := hcommit true (fun _ => ⟨b, by simp, hvb⟩)
+      unfold choiceStep
+      simpa [h1, h2, hf'] using this
+  · have hnv : ((branchKw kw b ([], st.avail)).1.any fun kv => kv.2.has) = false := by
+      cases hh : ((branchKw kw b ([], st.avail)).1.any fun kv => kv.2.has) with
+      | false => rfl
+      | true => exact absurd (branchKw_valued_of_any kw b st.avail hh) hval
+    by_cases hemp : (branchKw kw b ([], st.avail)).1.isEmpty = true
+    · have hst : choiceStep kw st b = st := by unfold choiceStep; simp [hemp]
+      rw [hst]
+      refine ⟨⟨h.aok, hchosen'⟩, fun n hn hm => ?_⟩
+      obtain ⟨v, hl⟩ := lookup_of_mem_keys kw n (h.aok.sub n hm)
+      have := branchKw_has kw b [] st.avail n v hn hm hl
+      rw [List.isEmpty_iff.1 hemp] at this
+      exact absurd this (by simp)
+    · have hemp' : (branchKw kw b ([], st.avail)).1.isEmpty = false := by simpa using hemp
+      have := hcommit st.found hchosen'
+      unfold choiceStep
+      simpa [hemp', hnv] using this
+
+theorem fold_ok (kw : Kw) (rest : List Branch) (done : List Branch) (st : CState)
+    (hone : ∀ pre b post, rest = pre ++ b :: post → ValuedIn kw b → ∀ b0, b0 ∈ done ++ pre → ¬ ValuedIn kw b0)
+    (h : FOk kw done st) :
+    FOk kw (done ++ rest) (rest.foldl (choiceStep kw) st) ∧ ∀ n, n ∈ rest.flatten → n ∉ (rest.foldl (choiceStep kw) st).avail := by
+  induction rest generalizing done st with
+  | nil => exact ⟨by simpa using h, fun n hn => absurd hn (by simp)⟩
+  | cons b rest ih =>
+    obtain ⟨h1, h2⟩ := choiceStep_ok kw done st b
+      (fun hv b0 hb0 => hone [] b rest rfl hv b0 (by simpa using hb0)) h
+    obtain ⟨h3, h4⟩ := ih (done ++ [b]) (choiceStep kw st b)
+      (fun pre b' post heq hv b0 hb0 => hone (b :: pre) b' post (by rw [heq]; rfl) hv b0 (by simpa [List.append_assoc] using hb0)) h1
+    refine ⟨by simpa [List.append_assoc] using h3, fun n hn => ?_⟩
+    simp only [List.flatten_cons, List.mem_append] at hn
+    simp only [List.foldl_cons]
+    rcases hn with hn | hn
+    · exact fun hm => h2 n hn (fold_sub kw rest _ _ hm)
+    · exact h4 n hn
+
+/-- at most one branch of the choice is given a value that counts -/
+def OneBranch (kw : Kw) (bs : List Branch) : Prop :=
+  ∀ pre b post, bs = pre ++ b :: post → ValuedIn kw b → ∀ b0, b0 ∈ pre → ¬ ValuedIn kw b0
+
 theorem itemKw_ok (kw : Kw) (avail : List String) (it : Item) (h : AOk kw avail)
-    (hone : ∀ bs, it = .choice bs → ∀ x y vx vy, x ∈ bs → y ∈ bs → kw.lookup x = some vx → vx.has = true →
-      kw.lookup y = some vy → vy.has = true → x = y) :
+    (hone : ∀ bs, it = .choice bs → OneBranch kw bs) :
     AOk kw (itemKw kw avail it).2 ∧ ∀ k, k ∈ it.names → k ∉ (itemKw kw avail it).2 := by
   cases it with
   | elem n =>
     simp only [itemKw, Item.names, List.mem_singleton]
-    by_cases hn : n ∈ avail
-    · obtain ⟨v, hl⟩ := lookup_of_mem_keys kw n (h.sub n hn)
-      rw [elemKw_in kw n avail v hn hl]
-      refine ⟨⟨List.Nodup.erase _ h.nodup, fun x hx => h.sub x (List.mem_of_mem_erase hx)⟩, ?_⟩
-      rintro k rfl hm
-      exact ((List.Nodup.mem_erase_iff h.nodup).1 hm).1 rfl
-    · rw [elemKw_out kw n avail hn]
-      exact ⟨h, by rintro k rfl; exact hn⟩
+    have := branchKw_ok kw [n] [] avail h
+    have heq : (branchKw kw [n] ([], avail)).2 = (elemKw kw n avail).2 := by
+      rcases elemKw_cases kw n avail with he | ⟨v, _, _, he⟩
+      · rw [branchKw_cons_skip kw n [] [] avail he, he]; rfl
+      · rw [branchKw_cons_take kw n [] [] avail v he, he]; rfl
+    rw [heq] at this
+    exact ⟨this.1, fun k hk => by subst hk; exact this.2 k (by simp)⟩
   | choice bs =>
     simp only [itemKw, Item.names, choiceKw_avail]
-    have h0 : FOk kw bs ⟨avail, [], false⟩ := ⟨h.nodup, h.sub, fun hf => by cases hf⟩
-    obtain ⟨h1, h2⟩ := fold_ok kw bs bs _ (fun _ hb => hb) (hone bs rfl) h0
-    exact ⟨⟨h1.nodup, h1.sub⟩, h2⟩
-
-theorem itemKw_sub (kw : Kw) (avail : List String) (it : Item) (x : String) :
-    x ∈ (itemKw kw avail it).2 → x ∈ avail := by
-  cases it with
-  | elem n => exact elemKw_sub kw n avail x
-  | choice bs => simp only [itemKw, choiceKw_avail]; exact fold_sub kw bs _ x
-
-theorem seqKw_sub (kw : Kw) (items : List Item) (res : Kw) (avail : List String) (x : String) :
-    x ∈ (seqKw kw items (res, avail)).2 → x ∈ avail := by
-  induction items generalizing res avail with
-  | nil => exact id
-  | cons it rest ih => intro h; simp only [seqKw] at h; exact itemKw_sub kw avail it x (ih _ _ h)
+    have h0 : FOk kw [] ⟨avail, [], false⟩ := ⟨h, fun hf => by cases hf⟩
+    obtain ⟨h1, h2⟩ := fold_ok kw bs [] _ (fun pre b post heq hv b0 hb0 => hone bs rfl pre b post heq hv b0 (by simpa using hb0)) h0
+    exact ⟨h1.aok, h2⟩
 
 theorem seqKw_ok (kw : Kw) (items : List Item) (res : Kw) (avail : List String) (h : AOk kw avail)
-    (hone : ∀ bs, Item.choice bs ∈ items → ∀ x y vx vy, x ∈ bs → y ∈ bs → kw.lookup x = some vx → vx.has = true →
-      kw.lookup y = some vy → vy.has = true → x = y) :
+    (hone : ∀ bs, Item.choice bs ∈ items → OneBranch kw bs) :
     AOk kw (seqKw kw items (res, avail)).2 ∧ ∀ k, k ∈ allNames items → k ∉ (seqKw kw items (res, avail)).2 := by
   induction items generalizing res avail with
   | nil => exact ⟨h, fun k hk => absurd hk (by simp [allNames])⟩
@@ -667,5 +827,273 @@ theorem attrKw_ok (kw : Kw) (attrs : List String) (res : Kw) (avail : List Strin
       rcases List.mem_cons.1 hk with rfl | hk
       · exact fun hm => (by simpa using hc' : k ∉ avail) (h1 _ hm)
       · exact h2 k hk
+
+/-! ### which branch is rendered, and what it emits -/
+
+theorem best_none_of_no_score (fields : Kw) (bs : List RBranch) (h : ∀ b, b ∈ bs → score fields b = 0) : best fields bs = none := by
+  induction bs with
+  | nil => rfl
+  | cons b bs ih =>
+    simp only [best, ih (fun b' hb' => h b' (List.mem_cons_of_mem _ hb'))]
+    simp [h b List.mem_cons_self]
+
+/-- when exactly one branch has members whose value is not None, that branch is the one rendered -/
+theorem best_single (fields : Kw) (pre : List RBranch) (b : RBranch) (post : List RBranch)
+    (hpre : ∀ b', b' ∈ pre → score fields b' = 0) (hpost : ∀ b', b' ∈ post → score fields b' = 0) (hb : score fields b > 0) :
+    best fields (pre ++ b :: post) = some b := by
+  induction pre with
+  | nil =>
+    simp only [List.nil_append, best, best_none_of_no_score fields post hpost]
+    simp [hb]
+  | cons p pre ih =>
+    have := ih (fun b' hb' => hpre b' (List.mem_cons_of_mem _ hb'))
+    simp only [List.cons_append, best, this]
+    have hp := hpre p List.mem_cons_self
+    simp only [hp]
+    have : ¬ (0 ≥ score fields b) := by omega
+    simp [this]
+
+theorem renderBranch_emits (fields : Kw) (b : RBranch) (out : List (String × Val)) (h : renderBranch fields b = .ok out)
+    (m : Member) (hm : m ∈ b) (v : Val) (hl : fields.lookup m.name = some v) (hv : v ≠ .none) : (m.name, v) ∈ out := by
+  induction b generalizing out with
+  | nil => exact absurd hm (by simp)
+  | cons m0 ms ih =>
+    simp only [renderBranch] at h
+    cases h1 : renderMember fields m0 with
+    | error e => rw [h1] at h; simp at h
+    | ok a =>
+      cases h2 : renderBranch fields ms with
+      | error e => rw [h1, h2] at h; simp at h
+      | ok b' =>
+        rw [h1, h2] at h
+        simp only [Except.ok.injEq] at h
+        subst h
+        rcases List.mem_cons.1 hm with rfl | hm'
+        · apply List.mem_append_left
+          unfold renderMember at h1
+          rw [hl] at h1
+          cases v with
+          | none => exact absurd rfl hv
+          | empty => simp at h1; subst h1; simp
+          | leaf t => simp at h1; subst h1; simp
+        · exact List.mem_append_right _ (ih b' h2 hm')
+
+theorem renderMember_ok (fields : Kw) (m : Member) (a : List (String × Val)) (h : renderMember fields m = .ok a) :
+    a = [] ∨ ∃ v, fields.lookup m.name = some v ∧ v ≠ .none ∧ a = [(m.name, v)] := by
+  unfold renderMember at h
+  cases hl : fields.lookup m.name with
+  | none =>
+    rw [hl] at h
+    by_cases ho : m.optional = true
+    · simp [ho] at h; exact .inl h
+    · simp [ho] at h
+  | some w =>
+    rw [hl] at h
+    cases w with
+    | none =>
+      by_cases ho : m.optional = true
+      · simp [ho] at h; exact .inl h
+      · simp [ho] at h
+    | empty => simp at h; exact .inr ⟨.empty, rfl, by simp, h.symm⟩
+    | leaf t => simp at h; exact .inr ⟨.leaf t, rfl, by simp, h.symm⟩
+
+/-- only the caller's data: everything a branch emits is a field bound to a value that is not None -/
+theorem renderBranch_sound (fields : Kw) (b : RBranch) (out : List (String × Val)) (h : renderBranch fields b = .ok out)
+    (k : String) (v : Val) (hm : (k, v) ∈ out) : fields.lookup k = some v ∧ v ≠ .none ∧ k ∈ b.names := by
+  induction b generalizing out with
+  | nil => simp only [renderBranch, Except.ok.injEq] at h; subst h; exact absurd hm (by simp)
+  | cons m0 ms ih =>
+    simp only [renderBranch] at h
+    cases h1 : renderMember fields m0 with
+    | error e => rw [h1] at h; simp at h
+    | ok a =>
+      cases h2 : renderBranch fields ms with
+      | error e => rw [h1, h2] at h; simp at h
+      | ok b' =>
+        rw [h1, h2] at h
+        simp only [Except.ok.injEq] at h
+        subst h
+        rcases List.mem_append.1 hm with hm | hm
+        · rcases renderMember_ok fields m0 a h1 with rfl | ⟨w, hl, hw, rfl⟩
+          · exact absurd hm (by simp)
+          · simp only [List.mem_singleton, Prod.mk.injEq] at hm
+            obtain ⟨rfl, rfl⟩ := hm
+            exact ⟨hl, hw, by simp [RBranch.names]⟩
+        · obtain ⟨h3, h4, h5⟩ := ih b' h2 hm
+          exact ⟨h3, h4, by simp only [RBranch.names, List.map_cons, List.mem_cons]; exact .inr (by simpa [RBranch.names] using h5)⟩
+
+
+/-! ### the bound fields: one entry per key, every entry the caller's value or a `None` default -/
+
+def Prov (kw : Kw) (res : Kw) : Prop := ∀ k v, (k, v) ∈ res → v = .none ∨ kw.lookup k = some v
+def Uniq (res : Kw) : Prop := (keys res).Nodup
+
+theorem lookup_of_mem_uniq (res : Kw) (h : Uniq res) (k : String) (v : Val) (hm : (k, v) ∈ res) : res.lookup k = some v := by
+  induction res with
+  | nil => exact absurd hm (by simp)
+  | cons p rest ih =>
+    obtain ⟨k', v'⟩ := p
+    simp only [Uniq, keys, List.map_cons, List.nodup_cons] at h
+    rcases List.mem_cons.1 hm with heq | hm'
+    · simp only [Prod.mk.injEq] at heq; obtain ⟨rfl, rfl⟩ := heq; simp [List.lookup]
+    · have hne : k ≠ k' := fun e => h.1 (e ▸ List.mem_map.2 ⟨(k, v), hm', rfl⟩)
+      simp only [List.lookup]
+      have : (k == k') = false := by simpa using hne
+      rw [this]
+      exact ih h.2 hm'
+
+theorem mem_of_lookup (res : Kw) (k : String) (v : Val) (h : res.lookup k = some v) : (k, v) ∈ res := by
+  obtain ⟨l₁, l₂, heq, _⟩ := List.lookup_eq_some_iff.1 h
+  rw [heq]; simp
+
+theorem uniq_upd (res sub : Kw) (hr : Uniq res) (hs : Uniq sub) : Uniq (upd res sub) := by
+  unfold Uniq upd keys at *
+  rw [List.map_append]
+  apply List.nodup_append.2
+  refine ⟨List.Nodup.sublist (List.Sublist.map _ List.filter_sublist) hr, hs, ?_⟩
+  intro a ha b hb hab
+  subst hab
+  obtain ⟨kv, hkv, rfl⟩ := List.mem_map.1 ha
+  have := (List.mem_filter.1 hkv).2
+  simp only [Bool.not_eq_true', List.contains_eq_mem, decide_eq_false_iff_not] at this
+  exact this hb
+
+theorem prov_upd (kw : Kw) (res sub : Kw) (hr : Prov kw res) (hs : Prov kw sub) : Prov kw (upd res sub) := by
+  intro k v hm
+  rcases (mem_upd _ _ _ _).1 hm with ⟨h, _⟩ | h
+  · exact hr k v h
+  · exact hs k v h
+
+theorem uniq_setDefaults (res : Kw) (ns : List String) (h : Uniq res) : Uniq (setDefaults res ns) := by
+  induction ns generalizing res with
+  | nil => exact h
+  | cons n ns ih =>
+    simp only [setDefaults]
+    apply ih
+    split
+    · exact h
+    · rename_i hc
+      unfold Uniq keys at *
+      rw [List.map_append]
+      apply List.nodup_append.2
+      refine ⟨h, by simp, ?_⟩
+      intro a ha b hb hab
+      simp only [List.map_cons, List.map_nil, List.mem_singleton] at hb
+      subst hab; subst hb
+      exact hc (by simpa [keys] using ha)
+
+theorem prov_setDefaults (kw : Kw) (res : Kw) (ns : List String) (h : Prov kw res) : Prov kw (setDefaults res ns) := by
+  induction ns generalizing res with
+  | nil => exact h
+  | cons n ns ih =>
+    simp only [setDefaults]
+    apply ih
+    split
+    · exact h
+    · intro k v hm
+      rcases List.mem_append.1 hm with hm | hm
+      · exact h k v hm
+      · simp only [List.mem_singleton, Prod.mk.injEq] at hm; exact .inl hm.2
+
+theorem uniq_single (k : String) (v : Val) : Uniq [(k, v)] := by simp [Uniq, keys]
+
+theorem branchKw_uniq (kw : Kw) (b : Branch) (res : Kw) (avail : List String) (h : Uniq res) :
+    Uniq (branchKw kw b (res, avail)).1 := by
+  induction b generalizing res avail with
+  | nil => exact h
+  | cons n ns ih =>
+    rcases elemKw_cases kw n avail with he | ⟨v, _, _, he⟩
+    · rw [branchKw_cons_skip kw n ns res avail he]; exact ih res avail h
+    · rw [branchKw_cons_take kw n ns res avail v he]; exact ih _ _ (uniq_upd res _ h (uniq_single n v))
+
+theorem branchKw_prov (kw : Kw) (b : Branch) (res : Kw) (avail : List String) (h : Prov kw res) :
+    Prov kw (branchKw kw b (res, avail)).1 := by
+  intro k v hm
+  rcases branchKw_entries kw b res avail k v hm with h' | ⟨_, _, h3⟩
+  · exact h k v h'
+  · exact .inr h3
+
+theorem choiceStep_fields (kw : Kw) (st : CState) (b : Branch) (hu : Uniq st.result) (hp : Prov kw st.result) :
+    Uniq (choiceStep kw st b).result ∧ Prov kw (choiceStep kw st b).result := by
+  have hu' := branchKw_uniq kw b [] st.avail (by simp [Uniq, keys])
+  have hp' := branchKw_prov kw b [] st.avail (fun _ _ h => absurd h (by simp))
+  unfold choiceStep
+  simp only
+  split
+  · exact ⟨hu, hp⟩
+  · split
+    · exact ⟨uniq_upd _ _ hu hu', prov_upd kw _ _ hp hp'⟩
+    · split
+      · exact ⟨uniq_upd _ _ hu hu', prov_upd kw _ _ hp hp'⟩
+      · exact ⟨hu, hp⟩
+
+theorem fold_fields (kw : Kw) (bs : List Branch) (st : CState) (hu : Uniq st.result) (hp : Prov kw st.result) :
+    Uniq (bs.foldl (choiceStep kw) st).result ∧ Prov kw (bs.foldl (choiceStep kw) st).result := by
+  induction bs generalizing st with
+  | nil => exact ⟨hu, hp⟩
+  | cons b bs ih =>
+    obtain ⟨h1, h2⟩ := choiceStep_fields kw st b hu hp
+    exact ih _ h1 h2
+
+theorem itemKw_fields (kw : Kw) (avail : List String) (it : Item) :
+    Uniq (itemKw kw avail it).1 ∧ Prov kw (itemKw kw avail it).1 := by
+  cases it with
+  | elem n =>
+    simp only [itemKw]
+    rcases elemKw_cases kw n avail with he | ⟨v, _, hl, he⟩
+    · rw [he]; exact ⟨by simp [Uniq, keys], fun _ _ h => absurd h (by simp)⟩
+    · rw [he]
+      refine ⟨uniq_single n v, fun k w hm => ?_⟩
+      simp only [List.mem_singleton, Prod.mk.injEq] at hm
+      obtain ⟨rfl, rfl⟩ := hm
+      exact .inr hl
+  | choice bs =>
+    simp only [itemKw, choiceKw]
+    obtain ⟨h1, h2⟩ := fold_fields kw bs ⟨avail, [], false⟩ (by simp [Uniq, keys]) (fun _ _ h => absurd h (by simp))
+    split
+    · exact ⟨uniq_setDefaults _ _ h1, prov_setDefaults kw _ _ h2⟩
+    · exact ⟨by simp [Uniq, keys], fun _ _ h => absurd h (by simp)⟩
+
+theorem seqKw_fields (kw : Kw) (items : List Item) (res : Kw) (avail : List String) (hu : Uniq res) (hp : Prov kw res) :
+    Uniq (seqKw kw items (res, avail)).1 ∧ Prov kw (seqKw kw items (res, avail)).1 := by
+  induction items generalizing res avail with
+  | nil => exact ⟨hu, hp⟩
+  | cons it rest ih =>
+    simp only [seqKw]
+    obtain ⟨h1, h2⟩ := itemKw_fields kw avail it
+    apply ih
+    · split
+      · exact hu
+      · exact uniq_upd _ _ hu h1
+    · split
+      · exact hp
+      · exact prov_upd kw _ _ hp h2
+
+theorem attrKw_fields (kw : Kw) (attrs : List String) (res : Kw) (avail : List String) (hu : Uniq res) (hp : Prov kw res) :
+    Uniq (attrKw kw attrs (res, avail)).1 ∧ Prov kw (attrKw kw attrs (res, avail)).1 := by
+  induction attrs generalizing res avail with
+  | nil => exact ⟨hu, hp⟩
+  | cons a rest ih =>
+    by_cases hc : avail.contains a = true
+    · cases hla : kw.lookup a with
+      | none => rw [attrKw_cons_out kw a rest res avail (.inr hla)]; exact ih _ _ hu hp
+      | some va =>
+        rw [attrKw_cons_in kw a rest res avail va hc hla]
+        refine ih _ _ (uniq_upd _ _ hu (uniq_single a va)) (prov_upd kw _ _ hp (fun k w hm => ?_))
+        simp only [List.mem_singleton, Prod.mk.injEq] at hm
+        obtain ⟨rfl, rfl⟩ := hm
+        exact .inr hla
+    · have hc' : avail.contains a = false := by simpa using hc
+      rw [attrKw_cons_out kw a rest res avail (.inl hc')]; exact ih _ _ hu hp
+
+theorem processKw_fields (items : List Item) (attrs : List String) (kw fields : Kw) (hok : processKw items attrs kw = .ok fields) :
+    Uniq fields ∧ Prov kw fields := by
+  unfold processKw at hok
+  simp only at hok
+  split at hok
+  · cases hok
+    obtain ⟨h1, h2⟩ := seqKw_fields kw items [] (keys kw) (by simp [Uniq, keys]) (fun _ _ h => absurd h (by simp))
+    exact attrKw_fields kw attrs _ _ h1 h2
+  · cases hok
 
 end Zeep.BindKw
